@@ -208,7 +208,7 @@ PROPS["C07"] = dict(
     traces_from_counter=True,
     parts=[dict(bin="e1_vfunc", opts={"prop": "C07", "traces": 1}, timeout_s={"quick": 900, "thorough": 14400}),
            dict(bin="e5_proto", shards=4)],
-    rule="E1: case = (type-level configuration, n, run-time configuration): EVERY n in 0..=N with the default configuration; every n in 0..=N1 x every single-axis run-time deviation (offline, low_mem true/false, threads 1/2/3, eps 0.01/0.1, log2_buckets 0/4, seeds 1..3, hint absent/half/2n+7/400000/800000/0, values all-zero/all-MAX/identity, check_dups); EVERY value width 1..=64 (usize; u16 and u8 up to their width) at n in {1,100,1000}; every key is also read through get_unaligned where the backend has it and the width admits it; builds whose FIRST attempt fails by construction (a harness key type decides the signatures: chosen pairs of keys collide under the first seed asked for and under no later one) for 5 shard/edge x signature combinations x n in {2,3,10,1000,100001,150000} (thorough 800001, 10^6) x 1 or 3 colliding pairs x 6 run-time configurations: the retry must yield a correct structure; all pairs of 14 run-time deviations at n in {0,1,2,3,10,99,100,101(,1000)}; 16 type-level configurations (key types usize/u64/str/String, Box<[u8|u16|u32|u64|usize]>, BitFieldVec<u8|u16|u64|usize>, [u64;1]/[u64;2] x FuseLge3NoShards, FuseLge3FullSigs, Mwhc3Shards, Mwhc3NoShards) for every n in 0..=N2; regime boundaries 50000, 99999..100001, 150000 (2 shards; thorough up to 800001), and 10 000 001 keys (thorough: 5, 10, 20, 45 and 85 million: the expansion factor changes at 5/10/20 million, sharding resumes, the default peeler changes). E5: all reachable states of the par_solve model for workers in 1..=3, shards in 1..=4, every per-shard outcome assignment in {ok, duplicate, unsolvable} (+ empty when shards = 1). non-trivial = n >= 2",
+    rule="E1: case = (type-level configuration, n, run-time configuration): EVERY n in 0..=N with the default configuration; every n in 0..=N1 x every single-axis run-time deviation (offline, low_mem true/false, threads 1/2/3, eps 0.01/0.1, log2_buckets 0/4, seeds 1..3, hint absent/half/2n+7/400000/800000/0, values all-zero/all-MAX/identity, check_dups); EVERY value width 1..=64 (usize; u16 and u8 up to their width) at n in {1,100,1000}; every key is also read through get_unaligned where the backend has it and the width admits it; builds whose FIRST attempt fails by construction (a harness key type decides the signatures: chosen pairs of keys collide under the first seed asked for and under no later one) for 5 shard/edge x signature combinations x n in {2,3,10,1000,100001,150000} (thorough 800001, 10^6) x 1 or 3 colliding pairs x 6 run-time configurations: the retry must yield a correct structure; all pairs of 14 run-time deviations at n in {0,1,2,3,10,99,100,101(,1000)}; 16 type-level configurations (key types usize/u64/str/String, Box<[u8|u16|u32|u64|usize]>, BitFieldVec<u8|u16|u64|usize>, [u64;1]/[u64;2] x FuseLge3NoShards, FuseLge3FullSigs, Mwhc3Shards, Mwhc3NoShards) for every n in 0..=N2; regime boundaries 50000, 99999..100001, 150000 (2 shards; thorough up to 800001), and 10 000 001 keys (thorough: 5, 10, 20, 45 and 85 million: the expansion factor changes at 5/10/20 million, sharding resumes, the default peeler changes). builds whose first attempt fails by duplicate signature / unsolvable shard (or succeeds) re-run once per protocol event index (0..48, thorough 0..150) with the thread raising that event held for 25 ms - a one-delay sweep of the schedules of the real solver threads, every event log replayed through the model; E5: all reachable states of the par_solve model for workers in 1..=3, shards in 1..=4, every per-shard outcome assignment in {ok, duplicate, unsolvable} (+ empty when shards = 1). non-trivial = n >= 2",
     alphabet="see rule",
     bound={"quick": "N=400, N1=160, N2=130", "thorough": "N=6000, N1=1500, N2=600, sizes to 85 000 000"},
     oracle="E1: Ok(f), f.len() == n, f.get(k_i) == v_i for every pair; termination under a 120 s per-case watchdog; E5: no deadlock, every terminal state consistent (Ok => every shard solved exactly once or empty; a failing shard => Err); binding: every real par_solve event log (thousands per run, including the unsolvable-shard retry path, which small key sets take very often) must be accepted by the model (tau-closure subset construction)",
@@ -233,7 +233,9 @@ TECHNIQUE["C08"] = "bounded-exhaustive enumeration of sizes x widths x configura
 PROPS["C17"] = dict(
     level="fault_enumeration",
     engine="E4+E5",
-    parts=[dict(bin="e4_fault", timeout_s={"quick": 900, "thorough": 7200}), dict(bin="e5_proto", shards=4)],
+    parts=[dict(bin="e4_fault", timeout_s={"quick": 900, "thorough": 7200}), dict(bin="e5_proto", shards=4),
+           # the failing-attempt protocol of par_solve under perturbed schedules (the C07 family, relabelled)
+           dict(bin="e1_vfunc", opts={"prop": "C07", "traces": 1, "family": "perturbed", "relabel": "C07:C17"}, tag="perturbed-schedules")],
     rule="fault case = (builder kind, n, fault): for every builder kind (function/filter, online/offline store, FuseLge3Shards, FuseLge3NoShards with 64-bit signatures, FuseLge3FullSigs without hint) and n in {0,1,2,5,16} a fault-free reference build determines the number P of passes over the sources (retries after unsolvable shards make P > 1 for most small key sets); then EVERY (pass p, index i <= n) of the key source, every (p, i < n) of the value source and every rewind of either source is failed in turn (first 4 passes (thorough 8) and the last one), plus one pair of faults; the same for keys read as lines through the crate's LineLender (two builder seeds: one whose first attempt succeeds, one that needs three passes) over a reader that fails at EVERY byte offset of every pass and at every seek back to the start (line boundaries, inside lines, end of input) of every pass; duplicate case = (kind, n in {2,3,5,12}, EVERY pair placement (i,j), triples, all-equal, threads 1/3) with check_dups(true); thorough adds one duplicate inside 10 000 and 120 000 keys; E5 part: deadlock freedom of the par_solve model when shards fail; non-trivial = n >= 2",
     alphabet="fault-injecting RewindableIoLender for keys and values (marker errors), duplicate key placements",
     bound={"quick": "n <= 16, first 4 passes + last; duplicate keys at n <= 12 (every pair) and at 200 000 keys (4 shards) with 1 and 2 solver threads", "thorough": "n <= 40, first 8 passes + last, duplicate sets at 10 000, 120 000, 200 000 and 800 000 keys (16 shards)"},
